@@ -34,7 +34,7 @@ CLAIMED = {
              note='HOLD returned by an event handler is outside the statement (O1). cat_is_hold itself is C18.',
              ref='DESIGN.md 4/C14'),
  'C15': dict(technique='effect analysis of OK-returning paths, abstract replay of the status merge per event-step outcome class, SCC ranking witnesses on the silent-step graph',
-             text='(a) every command-machine step that lets cat_service return OK is a reading handler whose read failed and changed nothing; (b) the tail of cat_service is re-interpreted for every outcome class of an event step (returned status, next event state, queue provably empty or not) for queue capacities 1,2 (quick) / 1,2,3,8 (thorough): OK requires idle and empty; (c) every strongly connected component of steps that neither consume, emit, pop an event nor call a handler carries a (lexicographic) strictly increasing cursor; (d) both dispatchers have a case for every enumerator.',
+             text='(a) every command-machine step that lets cat_service return OK is a reading handler whose read failed and changed nothing; (b) the tail of cat_service is re-interpreted for every outcome class of an event step (returned status, next event state, queue provably empty or not) for queue capacities 1,2,3 (quick) / 1,2,3,5,8 (thorough): OK requires idle and empty; (c) every strongly connected component of steps that consume no stimulus (input byte, queued event, handler result; emitting output is not a stimulus) carries a lexicographic strictly increasing cursor, so neither a silent nor an output-only livelock exists; (d) both dispatchers have a case for every enumerator.',
              note='Fair io schedule and terminating handlers are assumed as in the property. Linear step bound is reported through the ranking cursors, not separately proven.',
              ref='DESIGN.md 4/C15'),
  'C20': dict(technique='reaching-definitions (stale-field) dataflow with idle as cut point, sibling agreement of the CR handlers, selector table',
@@ -78,7 +78,7 @@ CLAIMED = {
              note='Does not decide the numeric identity parse(format(v)) = v (C library semantics plus C04), nor capacity interplay; arithmetic slips that keep the tables consistent are outside this family.',
              ref='DESIGN.md 4/C07'),
  'C13': dict(technique='exhaustive abstract evaluation of push / pop / observers over every consistent ring state per configured capacity; who-may-write; exactly-once typestate on the event machine',
-             text='For capacities 1,2 (quick) / 1,2,3,8 (thorough) push and pop are interpreted from every (head, tail, count) satisfying the ring invariant: the invariant is preserved, push writes slot tail only, pop reads slot head only, a full queue refuses with an empty store set, cat_is_unsolicited_buffer_full agrees, the buffered-event query inspects exactly the queued window; ring fields are written only by producer (trigger API), consumer (idle case of the event machine) and init; the popped pair is installed in the same step, never replaced before the reset, and every return to idle clears it. The index space is finite and enumerated completely, which covers arbitrarily many wraps.',
+             text='For capacities 1,2,3 (quick) / 1,2,3,5,8 (thorough) push and pop are interpreted from every (head, tail, count) satisfying the ring invariant: the invariant is preserved, push writes slot tail only, pop reads slot head only, a full queue refuses with an empty store set, cat_is_unsolicited_buffer_full agrees, the buffered-event query inspects exactly the queued window; ring fields are written only by producer (trigger API), consumer (idle case of the event machine) and init; the popped pair is installed in the same step, never replaced before the reset, and every return to idle clears it. The index space is finite and enumerated completely, which covers arbitrarily many wraps.',
              note='API bodies atomic (C16/C17); acceptance order as seen through real threads is C17. Capacities other than those listed are not analysed.',
              ref='DESIGN.md 4/C13'),
  'C19': dict(technique='table extraction from effect sequences, truth-table comparison of list printer vs dispatcher over descriptor valuations, unchecked-result lint for the bounded printers',
